@@ -12,6 +12,7 @@ TRANSLATORS = [
     ('durations', 'py2coq_durations', 'regenerate'),
     ('design_spectra', 'py2coq_design', 'regenerate'),
     ('effects_ir', 'py2ir_effects', 'regenerate'),
+    ('cache_events', 'py2coq_cache_events', 'regenerate'),
 ]
 
 
